@@ -16,7 +16,7 @@ func init() { registry["C14"] = &propDef{e1: c14Scenarios} }
 type c14Proc struct {
 	Exe, Arg, Env, Dir, Restart, Desc string
 	Period, Signal                    int
-	Dep                               bool
+	Dep, Disabled                     bool
 	DepCond                           string
 	Threshold, Max, ShutTimeout       int
 }
@@ -73,6 +73,9 @@ func (p c14Proc) yaml(name string) string {
 	fmt.Fprintf(&b, "    readiness_probe:\n      exec:\n        command: \"probe-%s\"\n      period_seconds: %d\n      failure_threshold: %d\n", name, p.Period, p.Threshold)
 	if p.Dep {
 		fmt.Fprintf(&b, "    depends_on:\n      d:\n        condition: %s\n", p.DepCond)
+	}
+	if p.Disabled {
+		b.WriteString("    disabled: true\n")
 	}
 	return b.String()
 }
@@ -140,8 +143,10 @@ func c14Scenarios(tier string) []*Scenario {
 				}
 			}
 			for n, m := range u {
-				if m == "added" {
-					next[n] = c14Base()
+				if m == "added" || m == "added-disabled" {
+					np := c14Base()
+					np.Disabled = m == "added-disabled"
+					next[n] = np
 					exp[n] = "added"
 				}
 			}
@@ -356,6 +361,10 @@ func c14Scenarios(tier string) []*Scenario {
 		}
 		scs = append(scs, sc)
 	}
+	// a process added as disabled: true is part of the configuration (listed, startable), just not launched;
+	// the same update sent again changes nothing
+	mk("same,same,+c-disabled", []map[string]string{{"a": "same", "b": "same", "c": "added-disabled"}}, init)
+	mk("seq:+c-disabled;same", []map[string]string{{"c": "added-disabled"}, {}}, init)
 	// two successive updates
 	seconds := []string{"same", "removed", "changed:args", "changed:environment"}
 	firsts := []string{"changed:args", "changed:description", "removed"}
@@ -564,6 +573,10 @@ func c14Check(w *World, steps []c14Step) []Violation {
 			case exp == "removed":
 				if exits == 0 {
 					vs = append(vs, viol("C14", "removed-alive", "removed process %s was not terminated", n))
+				}
+			case exp == "added" && is && np.Disabled:
+				if starts > 0 {
+					vs = append(vs, viol("C14", "added-disabled-started", "process %s was added as disabled: true and launched", n))
 				}
 			case exp == "added" && is:
 				if starts == 0 {
